@@ -472,9 +472,7 @@ pub struct Plan {
 }
 
 pub fn tmp_dir() -> std::path::PathBuf {
-  let p = std::path::PathBuf::from(
-    std::env::var("VERIF_TMP").unwrap_or_else(|_| "/verif/target/tmp".to_string()),
-  );
+  let p = std::env::var("VERIF_TMP").map(std::path::PathBuf::from).unwrap_or_else(|_| crate::report::verif_dir().join("target/tmp"));
   let _ = std::fs::create_dir_all(&p);
   p
 }
